@@ -7,6 +7,7 @@
    (`SeekForgets`).  Proved for the in-memory cursor and preserved by the encryption layer
    reader; the theorem is about `hist_op`/`hist_ops` of Run.v, i.e. about exactly what the
    correspondence check evaluates against the real reader. *)
+From MLA Require Import Limit.
 From MLA Require Import Base Stream EncLayer Blocks Reader Inst Run.
 From MLAGen Require Src.
 From Coq Require Import ZifyBool ZifyNat ZifyN.
@@ -32,6 +33,7 @@ Proof. intros sched p1 p2 p. cbn. split; reflexivity. Qed.
 (* the encryption layer reader preserves it: eseek_start uses the previous state only through
    the inner absolute seek; the cache, cache position and chunk number are overwritten *)
 Section EncForgets.
+  Context {LIM : Limit}.
   Variables CHUNK TAG : N.
   Variable ks : N -> N -> N.
   Variable tagc : N -> bytes -> bytes.
@@ -60,6 +62,7 @@ End EncForgets.
 
 (* ---------- the reader operations ---------- *)
 Section Indep.
+  Context {LIM : Limit}.
   Variable k : consts.
   Variable S : Stream.
   Hypothesis HS : SeekForgets S.
